@@ -221,16 +221,27 @@ pub fn check(case: &C04Case) -> CaseOutcome
             let mut bad = Vec::new();
             for line in text.lines()
             {
-                let is_open = line.contains("open(") || line.contains("openat(") || line.contains("creat(");
+                // "<pid> name(args..." ; lines such as "???( <detached ...>", "<... x resumed>", "+++ exited" carry no call
+                let rest = line.trim_start().trim_start_matches(|c: char| c.is_ascii_digit()).trim_start();
+                let name: String = rest.chars().take_while(|c| c.is_ascii_alphanumeric() || *c == '_').collect();
+                if name.is_empty() || !rest[name.len()..].starts_with('(')
+                {
+                    continue;
+                }
+                const MUTATORS: &[&str] = &[
+                    "rename", "renameat", "renameat2", "unlink", "unlinkat", "mkdir", "mkdirat", "rmdir", "truncate", "ftruncate", "chmod", "fchmod",
+                    "fchmodat", "link", "linkat", "symlink", "symlinkat", "utimensat", "mknod", "mknodat",
+                ];
+                let is_open = name == "open" || name == "openat" || name == "creat";
                 let mutating = if is_open
                 {
-                    (line.contains("O_WRONLY") || line.contains("O_RDWR") || line.contains("O_CREAT") || line.contains("O_TRUNC") || line.contains("O_APPEND") || line.contains("creat("))
+                    (line.contains("O_WRONLY") || line.contains("O_RDWR") || line.contains("O_CREAT") || line.contains("O_TRUNC") || line.contains("O_APPEND") || name == "creat")
                         && !line.contains("\"/dev/null\"")
                         && !line.contains("\"/dev/tty\"")
                 }
                 else
                 {
-                    line.contains('(') && !line.contains("+++") && !line.contains("---")
+                    MUTATORS.contains(&name.as_str())
                 };
                 if mutating
                 {
